@@ -15,6 +15,7 @@ def check(ctx: Ctx) -> None:
         ctx.guard("R2.3", F.GEN, F.trim_pair, ctx, r, "R2.3")
         ctx.guard("R2.4", F.GEN, F.slice_safety, ctx, r, "R2.4")
         ctx.guard("R2.4", F.GEN, F.refill_consistency, ctx, r, "R2.4c")
+        ctx.guard("R2.5", F.GEN, F.accounting, ctx, r, "R2.5")
         ctx.guard("R2.6", F.GEN, F.loop_independence, ctx, r, "R2.6")
     ctx.guard("R2.m", F.GEN, F.framing_cases, ctx, "R2.m", truncation=False, level=1 if thorough else 0)
     ctx.guard("R2.big", F.GEN, F.big_stream_case, ctx, "R2.big")
@@ -42,6 +43,7 @@ def mutants(prog):
     sub("short read ends the refill", r"(result = read_bytes_from_source\(buffer_read_size_bytes\)\n\s+if )not result:(  # If there is verifiably no more data to add, break\n\s+break\n\s+read_buffer \+= result\n\s+if len\(read_buffer\) - current_pos < n_bytes_packet)",
         r"\1len(result) < (buffer_read_size_bytes or 0) or not result:\2")
     sub("loop looks at the source kind", r"(        while True:\n)", r"\1            if isinstance(binary_data, bytes) and current_pos >= 1 << 40:\n                break\n")
+    sub("prefix counted twice", r"(        current_pos \+= skip_header_bytes\n)", r"\1        n_bytes_parsed += skip_header_bytes\n", "R2")
     sub("yield the header-less slice", r"packet_bytes = read_buffer\[current_pos:current_pos \+ n_bytes_packet\]", "packet_bytes = read_buffer[current_pos + 0:current_pos + n_bytes_packet - 1]")
     return out
 
@@ -50,7 +52,7 @@ SPEC = PropSpec(
     pid="C02",
     title="Stream framing is exact and independent of source kind and chunking",
     check=check,
-    floors={"R2.1": 3, "R2.2": 2, "R2.3": 1, "R2.4": 2, "R2.4c": 2, "R2.6": 1, "R2.m": 10, "R2.big": 1},
+    floors={"R2.1": 3, "R2.2": 2, "R2.3": 1, "R2.4": 2, "R2.4c": 2, "R2.5": 1, "R2.6": 1, "R2.m": 10, "R2.big": 1},
     explanation=("Invariants of ccsds_generator as affine facts over its CFG (roles buffer/cursor/length discovered from "
                  "the yield): R2.1 packet length = length field(32,16) + 1 + 6 read from B[P:P+6]; R2.2 exactly one "
                  "cursor skip before and one advance by N after the slice; R2.3 the >20 MB trim is B=B[P:];P=0; R2.4 "
